@@ -46,7 +46,36 @@ class TokPure(Pure):
         self.int_consts = {n.targets[0].id: n.value.value for n in cls.body
                            if isinstance(n, ast.Assign) and len(n.targets) == 1 and isinstance(n.targets[0], ast.Name)
                            and isinstance(n.value, ast.Constant) and isinstance(n.value.value, int) and not isinstance(n.value.value, bool)}
-        self.ignored_writes = set(self.IGNORED_WRITES)
+        # attributes of self that are written somewhere in the class but never read anywhere in it: dead stores
+        # (computed as a fixpoint: what a dead store's right-hand side reads, and what only dead private methods read, does not count)
+        is_self = lambda n: isinstance(n, ast.Attribute) and isinstance(n.value, ast.Name) and n.value.id == "self"
+        stores = {n.attr for n in ast.walk(cls) if is_self(n) and isinstance(n.ctx, ast.Store)}
+        methods = {m.name: m for m in cls.body if isinstance(m, ast.FunctionDef)}
+        dead, dead_methods = set(), set()
+        while True:
+            loads = set()
+            for mname, m in methods.items():
+                if mname in dead_methods:
+                    continue
+                skip = set()
+                for st in ast.walk(m):
+                    if isinstance(st, ast.Assign) and len(st.targets) == 1 and is_self(st.targets[0]) and st.targets[0].attr in dead:
+                        skip.update(id(x) for x in ast.walk(st.value))
+                loads.update(n.attr for n in ast.walk(m) if is_self(n) and isinstance(n.ctx, ast.Load) and id(n) not in skip)
+            new_dead = stores - loads
+            new_dead_methods = {mn for mn in methods if mn.startswith("_") and not mn.startswith("__") and mn not in loads}
+            if new_dead == dead and new_dead_methods == dead_methods:
+                break
+            dead, dead_methods = new_dead, new_dead_methods
+        self.ignored_writes = set(self.IGNORED_WRITES) | dead
+        # the attribute(s) the constructor binds to the validator (self._is_valid = validator / validator.is_valid), under any name
+        init = methods.get("__init__")
+        self.valid_attrs = {"_is_valid"}
+        if init is not None and any(a.arg == "validator" for a in init.args.args):
+            for st in ast.walk(init):
+                if isinstance(st, ast.Assign) and len(st.targets) == 1 and is_self(st.targets[0]) \
+                        and ast.unparse(st.value) in ("validator", "validator.is_valid"):
+                    self.valid_attrs.add(st.targets[0].attr)
         self.reads = 0
         self.case_frame = None
         self.in_alt = False
@@ -122,7 +151,7 @@ class TokPure(Pure):
                 t = "(" + " || ".join(parts) + ")" if parts else "false"
                 return V(t if isinstance(e.ops[0], ast.In) else "(negb %s)" % t, "bool")
         if isinstance(e, ast.Call) and isinstance(e.func, ast.Attribute) and isinstance(e.func.value, ast.Name) and e.func.value.id == "self" \
-                and e.func.attr == "_is_valid":
+                and e.func.attr in self.valid_attrs:
             if len(e.args) != 1 or not isinstance(e.args[0], ast.Name) or env.get(e.args[0].id, NONE).ty != "elem":
                 bad(e, "the validator must be applied to the frame")
             self.valid_calls += 1
@@ -470,7 +499,7 @@ def emit(core_py):
         return "Ok (mkConfig %s)" % " ".join(env["self." + a].text for a, _, _ in CFG_STATE)
     sp = Spec("validate2", [], ret_cfg, self_attrs={}, state=CFG_STATE)
     tr = TokPure(init, sp, tree, cls)
-    tr.ignored_writes = set(TokPure.IGNORED_WRITES) | {"_is_valid", "validator", "_mode", "_state", "_data", "_contiguous_token", "_init_count",
+    tr.ignored_writes = set(TokPure.IGNORED_WRITES) | tr.ignored_writes | tr.valid_attrs | {"_is_valid", "validator", "_mode", "_state", "_data", "_contiguous_token", "_init_count",
                                                         "_silence_length", "_start_frame", "_current_frame"}
     params = [a.arg for a in init.args.args if a.arg != "self"]
     if params != ["validator", "min_length", "max_length", "max_continuous_silence", "init_min", "init_max_silence", "mode"]:
